@@ -31,7 +31,7 @@ from cerberus import Validator, SchemaError, schema_registry, rules_set_registry
 from cerberus import schema as cschema
 from cerberus.schema import DefinitionSchema
 
-from .. import codec, real, cases, rewrite, sched
+from .. import codec, real, cases, rewrite, sched, families
 from ..lean import Driver
 
 FILES = ('cerberus/schema.py',)
@@ -53,6 +53,26 @@ CORPUS = [
      'cfg': {}, 'docs': [{'k': {'x': {'q': 1}}, 'l': ['c']}, {'k': {'y': 1}, 'l': ['aa']}],
      'threads': [[('construct', 0), ('validate', 0, 0), ('normalized', 0, 1)], [('construct', 0), ('validate', 0, 1)]],
      'cls': 'V', 'origin': 'corpus-nested-shorthand'},
+    # shared registries, with a valid and an invalid definition that several schemas refer to
+    {'objs': [{'a': {'type': 'dict', 'schema': 'bad'}, 'c': {'type': 'integer'}},
+              {'b': {'type': 'list', 'schema': {'type': 'dict', 'schema': 'bad'}}, 'd': 'rs_good'},
+              {'e': {'type': 'dict', 'schema': 'good'}, 'f': 'rs_good', 'g': {'anyof': ['rs_good', {'type': 'string'}]}},
+              {'h': 'rs_bad'}],
+     'schemas': {'bad': {'v': {'type': 'no_such_type'}, 'w': {'type': 'dict', 'schema': 'bad'}},
+                 'good': {'v': {'type': 'integer', 'coerce': int}, 'w': {'type': 'dict', 'schema': 'good'}}},
+     'rules_sets': {'rs_good': {'type': 'integer', 'min': 0}, 'rs_bad': {'type': 'integer', 'no_such_rule': 1}},
+     'cfg': {}, 'docs': [{'e': {'v': '1', 'w': {'v': 2}}, 'f': 3, 'g': 'x'}, {'e': {'v': 'x'}, 'f': -1, 'g': 1.5}],
+     'threads': [[('construct', 0), ('construct', 2), ('validate', 0, 0), ('construct', 3)],
+                 [('construct', 1), ('construct', 2), ('validate', 0, 1), ('construct', 0)]],
+     'cls': 'V', 'origin': 'corpus-registries'},
+    # deprecated names and names with spaces on top-level fields: every rewriting pass of `expand` has work to do
+    {'objs': [{'m': {'type': 'dict', 'valueschema': {'type': 'integer', 'min': 0}, 'keyschema': {'type': 'string', 'regex': '[a-z]+'}},
+               'n': {'validator': families.k_odd, 'type': 'integer'},
+               'o': {'type': 'dict', 'allow unknown': True, 'schema': {'p': {'anyof type': ['integer', 'string']}}},
+               'q': {'noneof_min': [5, 7], 'allof_type': ['integer']}}],
+     'cfg': {}, 'docs': [{'m': {'a': 1, 'B': -1}, 'n': 3, 'o': {'p': 1.5, 'x': 1}, 'q': 6}, {'m': {'k': 2}, 'n': 2, 'o': {'p': 'x'}, 'q': 1}],
+     'threads': [[('construct', 0), ('validate', 0, 0)], [('construct', 0), ('validate', 0, 1)]],
+     'cls': 'V', 'origin': 'corpus-deprecated-top-level'},
 ]
 
 
@@ -73,6 +93,14 @@ def make_scenario(seed, idx):
         if cases.accepted(case) is True:
             break
     short, applied = rewrite.to_shorthand(rng, case['schema'], p=0.7)
+    rules_sets, sub_schemas = {}, {}
+    if rng.random() < 0.5:
+        # parts of the schema live in the (shared, module-level) registries
+        short, rules_sets, sub_schemas, refd = rewrite.to_references(rng, short, p=0.5)
+        if rules_sets and rng.random() < 0.3:
+            k = rng.choice(sorted(rules_sets))
+            if isinstance(rules_sets[k], dict):
+                rules_sets[k]['no_such_rule'] = 1              # an invalid definition: the constructions are rejected
     objs = [short]
     if rng.random() < 0.5:
         objs.append(copy.deepcopy(case['schema']))          # the canonical form as a second shared object
@@ -89,11 +117,14 @@ def make_scenario(seed, idx):
         threads.append(prog)
     cfg = dict(case.get('cfg', {}))
     return {'objs': objs, 'cfg': cfg, 'docs': docs, 'threads': threads, 'cls': case.get('cls', 'V'),
-            'origin': 'generated seed=%d idx=%d rewrites=%d' % (seed, idx, len(applied))}
+            'rules_sets': rules_sets, 'schemas': sub_schemas,
+            'origin': 'generated seed=%d idx=%d rewrites=%d references=%d' % (seed, idx, len(applied),
+                                                                              len(rules_sets) + len(sub_schemas))}
 
 
 def describe(sc):
     return {'objs': [repr(o)[:1500] for o in sc['objs']], 'cfg': repr(sc['cfg'])[:300],
+            'rules_set_registry': repr(sc.get('rules_sets', {}))[:800], 'schema_registry': repr(sc.get('schemas', {}))[:800],
             'docs': [repr(d)[:300] for d in sc['docs']], 'threads': sc['threads'], 'origin': sc['origin']}
 
 
@@ -140,17 +171,23 @@ def program(sc, tid, objs, cfg):
     return f
 
 
-def fresh(lazy_absent):
+def fresh(lazy_absent, sc=None):
     Validator.clear_caches()
     real.clear_global_state()
     if lazy_absent and 'SchemaValidator' in vars(cschema):
         del cschema.SchemaValidator
+    if sc is not None:
+        # the registries the threads share (read-only while they run)
+        for k, v in sc.get('rules_sets', {}).items():
+            rules_set_registry.add(k, copy.deepcopy(v))
+        for k, v in sc.get('schemas', {}).items():
+            schema_registry.add(k, copy.deepcopy(v))
 
 
 def alone(sc, lazy_absent=False):
     out = []
     for t in range(len(sc['threads'])):
-        fresh(lazy_absent)
+        fresh(lazy_absent, sc)
         out.append(program(sc, t, copy.deepcopy(sc['objs']), copy.deepcopy(sc['cfg']))())
     return out
 
@@ -158,7 +195,7 @@ def alone(sc, lazy_absent=False):
 # ------------------------------------------------------------------ B/C: real threads
 
 def run_plan(sc, plan, lazy_absent, files=FILES):
-    fresh(lazy_absent)
+    fresh(lazy_absent, sc)
     objs, cfg = copy.deepcopy(sc['objs']), copy.deepcopy(sc['cfg'])
     s = sched.Sched([program(sc, t, objs, cfg) for t in range(len(sc['threads']))], plan, files)
     res = s.run((cschema,))
@@ -166,11 +203,13 @@ def run_plan(sc, plan, lazy_absent, files=FILES):
 
 
 def yield_points(sc, files=FILES):
+    """per thread: the locations (file:line) of its yield points when it runs alone"""
     n = []
     for t in range(len(sc['threads'])):
-        fresh(False)
-        r, k = sched.run_alone(program(sc, t, copy.deepcopy(sc['objs']), copy.deepcopy(sc['cfg'])), files, (cschema,))
-        n.append(k)
+        fresh(False, sc)
+        r, where = sched.run_alone(program(sc, t, copy.deepcopy(sc['objs']), copy.deepcopy(sc['cfg'])), files, (cschema,),
+                                   record=True)
+        n.append(where)
     return n
 
 
@@ -212,7 +251,7 @@ def worker_stress(args):
     sys.setswitchinterval(1e-6)
     try:
         for rep in range(reps):
-            fresh(rep % 2 == 0)
+            fresh(rep % 2 == 0, sc2)
             objs, cfg = copy.deepcopy(sc2['objs']), copy.deepcopy(sc2['cfg'])
             res = [None] * nthreads
             barrier = threading.Barrier(nthreads)
@@ -241,17 +280,27 @@ def worker_stress(args):
     return idx, nthreads, bad, reps
 
 
-def plans_for(npoints, stride, rng, two=0):
-    """1-preemption plans over a stride of the yield points of every ordered pair; `two` sampled 2-preemption plans"""
-    T = len(npoints)
+def plans_for(where, per_line, rng, two=0):
+    """1-preemption plans: thread a is preempted before a yield point, b runs to completion, a goes on.  The points
+    are chosen by *line coverage*: for every distinct source line a thread passes, its first, last and up to
+    `per_line` - 2 other occurrences.  `two` sampled 2-preemption plans (and 3-thread rotations) on top."""
+    T = len(where)
+    npoints = [len(w) for w in where]
     out = []
     for a in range(T):
+        occ = {}
+        for k, loc in enumerate(where[a]):
+            occ.setdefault(loc, []).append(k)
+        ks = set([0, npoints[a]])
+        for loc, lst in occ.items():
+            pick = [lst[0], lst[-1]]
+            if per_line > 2 and len(lst) > 2:
+                pick += rng.sample(lst[1:-1], min(per_line - 2, len(lst) - 2))
+            ks.update(pick)
         for b in range(T):
-            if a == b:
-                continue
-            off = rng.randrange(stride)
-            for k in range(off, npoints[a] + 1, stride):
-                out.append([(a, k), (b, INF)])
+            if a != b:
+                for k in sorted(ks):
+                    out.append([(a, k), (b, INF)])
     for _ in range(two):
         a, b = rng.sample(range(T), 2)
         k1 = rng.randrange(npoints[a] + 1)
@@ -318,7 +367,7 @@ def port_shared(ctx, drv, seed, idx):
     try:
         # 1. tables from each program alone, the cache cleared before every operation
         for t, prog in enumerate(sc['threads']):
-            real.clear_global_state()
+            fresh(False, sc)
             objs, cfg, held = copy.deepcopy(sc['objs']), copy.deepcopy(sc['cfg']), []
             held_ids = []
             for op in prog:
@@ -379,7 +428,7 @@ def port_shared(ctx, drv, seed, idx):
         T = len(sc['threads'])
         order = [t for t in range(T) for _ in sc['threads'][t]]
         rng.shuffle(order)
-        real.clear_global_state()
+        fresh(False, sc)
         Validator._valid_schemas.clear()
         objs, cfg = copy.deepcopy(sc['objs']), copy.deepcopy(sc['cfg'])
         obj0 = [sid(canon(o)) for o in objs]
@@ -405,6 +454,7 @@ def port_shared(ctx, drv, seed, idx):
         LoggingSet.log = None
         owner._valid_schemas = old
         Validator.clear_caches()
+        real.clear_global_state()
     # 3. the model on the same interleaving
     progs = []
     for prog in sc['threads']:
@@ -451,7 +501,7 @@ def port_shared(ctx, drv, seed, idx):
     if model_outs != real_rows:
         ctx.port_mismatch('shared', jd, repr(model_outs)[:800], repr(real_rows)[:800],
                           'outcomes of the shared history differ from the model run on the tables measured alone')
-    mev = [e if e[0] != 'cache' else ['cache', sorted(e[1])] for e in rep['events']]
+    mev = [e if e[0] != 'cache' else ['cache', sorted(set(e[1]))] for e in rep['events']]      # the model's cache is a list
     if mev != real_events:
         k = next((i for i, (a, b) in enumerate(zip(mev, real_events)) if a != b), min(len(mev), len(real_events)))
         ctx.port_mismatch('shared', jd, repr(mev[max(0, k - 2):k + 3]), repr(real_events[max(0, k - 2):k + 3]),
@@ -484,7 +534,7 @@ def footprint():
 
 # ------------------------------------------------------------------ the check
 
-def explore(ctx, n_scen, stride, two, stress_reps, wide=False, first=0):
+def explore(ctx, n_scen, per_line, two, stress_reps, wide=False, first=0):
     """parts B and C in worker processes"""
     jobs, stress = [], []
     rng = random.Random(ctx.seed * 97 + 5)
@@ -494,8 +544,8 @@ def explore(ctx, n_scen, stride, two, stress_reps, wide=False, first=0):
             npoints = yield_points(sc, FILES_WIDE if wide else FILES)
         except sched.Deadlock as e:
             raise RuntimeError('scheduler fault on scenario %d: %s' % (idx, e))
-        st = stride if idx >= len(CORPUS) else max(1, stride // 8)
-        plans = plans_for(npoints, st * (6 if wide else 1), rng, two)
+        plans = plans_for(npoints, per_line + (1 if idx < len(CORPUS) else 0), rng, two)
+        ctx.dist('distinct_lines_preempted', 'scenario %d' % idx, len(set(l for w in npoints for l in w)))
         for lazy_absent in ((True, False) if idx < len(CORPUS) or rng.random() < 0.3 else (False,)):
             for i in range(0, len(plans), 40):
                 jobs.append((ctx.seed, idx, plans[i:i + 40], lazy_absent, wide))
@@ -545,10 +595,10 @@ def run(ctx, n):
             except codec.OutOfUniverse:
                 ctx.cov['out_of_domain'] += 1
     n_scen = (len(CORPUS) + 3) if not thorough else (len(CORPUS) + 40)
-    explore(ctx, n_scen, stride=48 if not thorough else 3, two=60 if not thorough else 1500,
+    explore(ctx, n_scen, per_line=2 if not thorough else 6, two=60 if not thorough else 1500,
             stress_reps=6 if not thorough else 60)
     if thorough:
-        explore(ctx, len(CORPUS) + 6, stride=3, two=300, stress_reps=0, wide=True)
+        explore(ctx, len(CORPUS) + 6, per_line=2, two=300, stress_reps=0, wide=True)
     Validator.clear_caches()
     real.clear_global_state()
     after = footprint()
@@ -560,7 +610,7 @@ def run(ctx, n):
 
 
 def search(ctx, n):
-    explore(ctx, len(CORPUS) + 12, stride=4, two=400, stress_reps=20, first=0)
+    explore(ctx, len(CORPUS) + 12, per_line=5, two=400, stress_reps=20, first=0)
 
 
 def replay_plan(rp):
